@@ -48,6 +48,16 @@ CHECKS = {
         text='For power-of-two factors TLC requires identical indices, durations, ratios (bit-identical) and labels and voltage features / band_amp scaled by exactly the factor, and a bit-identical table when fs and both band edges are multiplied by c in {1/8,1/4,1/2,2,4}; the recorded environment outputs (sign pattern, mask, filter length) must coincide, which makes the neurodsp covariance assumption visible.',
         design_ref='6/C10',
         note='scale factors restricted to powers of two as the property states; pairs sampled from the generated corpus.'),
+    'C11': dict(
+        technique=TECH + 'exhaustive model checking of the concurrent Pool state machine (all interleavings, safety + liveness), replay of every TLC-reached completion order on the real multiprocessing pool via injected worker delays, and TLC trace validation (Trace_Pool) of the recorded worker logs and results',
+        text='Pool.tla models Pool.imap (Submit / Take / Finish / Handle with re-ordering buffer / Consume); Prefix, AtMostOnce, NothingLost hold for every interleaving and Termination under weak fairness, and the imap_unordered deviation violates Prefix (negative control). The reachable completion orders are realised on the real compute_features_2d / BycycleGroup.fit (n_jobs 1..T+2 and -1, shared / per-row options, progress None / tqdm); TLC checks every position against the solitary analysis (table fingerprints over float limbs) and finds an interleaving of the per-process worker logs that the specification allows.',
+        design_ref='6/C11',
+        note='fork start method; T <= 5 tasks, W <= 4 workers exhaustively (thorough 6/6); completion orders are induced by delays and reported from timestamps but never used for judging.'),
+    'C12': dict(
+        technique=TECH + 'model checking of the pool with the placement arithmetic (Reshape / Transpose) as invariants, replay on the real compute_features_3d / BycycleGroup.fit over shapes x axis modes x option-list shapes x n_jobs under injected delays, and TLC trace validation (Trace_Pool) placing the per-task references with the specification\'s own index arithmetic',
+        text='For axis (0,1) the flat task list is reshaped with (i-1)*n1 + j, for axis 1 the per-column results are transposed back, for axis 0 rows are epoched analyses; TLC proves the arithmetic for all shapes up to 3x3 on every interleaving and compares every [i][j] of real runs (shapes incl. n0 != n1 and size-1 dimensions, shared / 1-D / 2-D lists, progress on/off, group API with models mirrored) against references computed per task.',
+        design_ref='6/C12',
+        note='axis 0 / 1 references are real compute_features_2d(axis=None) calls on the slice (covered by C13); shapes to 3x3 (thorough adds 2x4, 4x2).'),
     'C13': dict(
         technique=TECH + 'exhaustive small-scope model checking (MC_Tables, mode epoch) with indexed conformance of the real epoch_df, plus trace validation (Trace_Tables) of epoch_df and compute_features_2d(axis=None) against Epoch(Analyze(flattened)) and the per-epoch relabelling rule',
         text='Epoch assignment by the closing side extremum in ((e-1)L, eL], order, shift and unchanged feature values (fingerprints of float limbs); Partition / exactly-one-epoch are TLC invariants of the model on every small table x epoch length and the real epoch_df agrees on each; recorded axis=None runs (single option set: labels of the flattened analysis; per-epoch list: each epoch re-labelled by the rule on rank codes; repeated call with shared option objects; empty epochs; boundary-coinciding extrema) are judged by TLC.',
